@@ -207,6 +207,15 @@ func runC15(w *core.WorkerCtx, idx int) *core.CaseResult {
 			groups[j.Name] = []TG{{Source: "fed/0", Targets: []map[string]string{{"__address__": "fed.example:9090", "job": "fed"}, {"__address__": "fed2.example:9090", "job": "fed"}}}}
 		}
 	}
+	if r.Intn(3) == 0 {
+		// two scrape jobs with identical settings that discover the same endpoints, whose targets carry a job label
+		// set by discovery: equal final labels, equal URL - ONE target, whatever the scrape job is called
+		for _, n := range []string{"pinned-one", "pinned-two"} {
+			j := cfggen.Job{Name: n, MetricsPath: "/metrics", SDs: []cfggen.SD{{Kind: "static", Targets: []string{"unused.example:1"}}}}
+			spec.Jobs = append(spec.Jobs, j)
+			groups[j.Name] = []TG{{Source: "pinned/0", Targets: []map[string]string{{"__address__": "pinned.example:9100", "job": "app"}, {"__address__": "pinned2.example:9100", "job": "app", "zone": "b"}}}}
+		}
+	}
 	text := cfggen.Render(spec, cfggen.Style{Indent: 2})
 	base := c15Observe(&c15Input{Config: text, Groups: groups, Rounds: 1})
 	if base.Err != "" {
